@@ -233,15 +233,15 @@ def run(c):
     catalogue_leg(c, wd, 1)
     catalogue_leg(c, wd, 2)
     rnd = [G.random_instance(rng, kinds=('int', 'str', 'list', 'dict', 'obj', 'hostile', 'iter', 'exc'))
-           for _ in range(300 if quick else 6000)]
+           for _ in range(300 if quick else 30000)]
     traces, meta, sk = c05.run_instances(c, rnd, wd, 'random-hostile')
     c05.validate(c, traces, meta)
-    sim = tlc.simulate('Snapshot', c02.mc_cfg(d=2, k=3, cls=c02.ALL_CLS), num=40 if quick else 800, depth=12, seed=c.seed + 7)
+    sim = tlc.simulate('Snapshot', c02.mc_cfg(d=2, k=3, cls=c02.ALL_CLS), num=40 if quick else 5000, depth=12, seed=c.seed + 7)
     c.transitions += sim.generated
     multi = [b for b in sim.behaviours if len(b[-1][2]['tps']) >= 2]
     c02.replay_behaviours(c, multi, wd, 'm')
     # totality: `self` of a paused method is an object whose truth value cannot be taken / is False
-    sim = tlc.simulate('Snapshot', c02.mc_cfg(d=2, k=2, cls=('H', 'E')), num=12 if quick else 200, depth=12, seed=c.seed + 8)
+    sim = tlc.simulate('Snapshot', c02.mc_cfg(d=2, k=2, cls=('H', 'E')), num=12 if quick else 1500, depth=12, seed=c.seed + 8)
     c.transitions += sim.generated
     c02.replay_behaviours(c, sim.behaviours, wd, 'h')
 
